@@ -537,7 +537,7 @@ def _set_order(ctx, reach):
                          "with PYTHONHASHSEED, so the result differs "
                          "between interpreter sessions; use sorted(...)",
                          node=n)
-    ctx.floor("C08b-set-sites", n_sets, 6)
+    ctx.floor("C08b-set-sites", n_sets, 3)
     if not findings:
         ctx.ok("C08b-set-order", "mokapot.parsers.fasta.read_fasta",
                f"{n_sets} set consumption sites, all order-free or "
